@@ -5,7 +5,7 @@
  * not the holder and a wait by the holder; the same program is also built with -fsanitize=thread.
  *
  * script (one scenario per line; `--- <id>` separates and is echoed):
- *   srv seed=<n> mode=<0|1|2> conns=<1..4> apps=<1..4> rounds=<n> reent=<0|1> raw=<0|1> stop=<0|1|2>
+ *   srv seed=<n> mode=<0|1|2> conns=<1..4> apps=<1..4> rounds=<n> reent=<0|1> raw=<0|1> stop=<0|1|2> big=<0|1> (big: now and then an ASDU too large for an APDU)
  *       (stop: 0 = stop after the peers are done, 1 = stop while everything is busy, 2 = destroy while the peers are still talking)
  *   cli seed=<n> apps=<1..4> rounds=<n> reent=<0|1> raw=<0|1> close=<0|1>
  * trace:
@@ -39,7 +39,7 @@ static uint64_t rnd(Rng* r)
 static int below(Rng* r, int n) { return n > 0 ? (int) (rnd(r) % (uint64_t) n) : 0; }
 static void jitter(Rng* r) { int j = below(r, 8); if (j == 0) sched_yield(); else if (j == 1) usleep(50 + below(r, 300)); }
 
-static struct { int seed, mode, conns, apps, rounds, reent, raw, stop, close; } P;
+static struct { int seed, mode, conns, apps, rounds, reent, raw, stop, close, big; } P;
 static volatile int finished_flag = 0;
 static const char* current_kind = "?";
 static char cb_note[128];
@@ -155,7 +155,15 @@ static void* srv_app(void* arg)
     CS101_AppLayerParameters alp = CS104_Slave_getAppLayerParameters(slave);
     for (int i = 0; i < P.rounds * 4 && !FLAG_GET(stop_apps); i++) {
         int op = below(&r, 10);
-        if (op < 5) { CS101_ASDU a; make_measurement(alp, i + (int) (intptr_t) arg * 1000, &a); CS104_Slave_enqueueASDU(slave, a); CS101_ASDU_destroy(a); __sync_fetch_and_add(&n_enq, 1); }
+        if (op < 5 && P.big && below(&r, 8) == 0) {
+            /* an ASDU built with application layer parameters that allow 254 octets: too large for an APDU, refused by the queue */
+            struct sCS101_AppLayerParameters big = *alp; big.maxSizeOfASDU = 254;
+            static const uint8_t fill[248] = {1, 0, 0, 7};
+            CS101_ASDU a = CS101_ASDU_create(&big, false, CS101_COT_SPONTANEOUS, 0, 1, false, false);
+            CS101_ASDU_setTypeID(a, M_ME_NB_1); CS101_ASDU_addPayload(a, (uint8_t*) fill, 243 + below(&r, 6));
+            CS104_Slave_enqueueASDU(slave, a); CS101_ASDU_destroy(a); __sync_fetch_and_add(&n_enq, 1);
+        }
+        else if (op < 5) { CS101_ASDU a; make_measurement(alp, i + (int) (intptr_t) arg * 1000, &a); CS104_Slave_enqueueASDU(slave, a); CS101_ASDU_destroy(a); __sync_fetch_and_add(&n_enq, 1); }
         else if (op < 7) { (void) CS104_Slave_getOpenConnections(slave); __sync_fetch_and_add(&n_query, 1); }
         else if (op < 8) { (void) CS104_Slave_isRunning(slave); __sync_fetch_and_add(&n_query, 1); }
         else if (op < 9) { (void) CS104_Slave_getNumberOfQueueEntries(slave, NULL); __sync_fetch_and_add(&n_query, 1); }
@@ -362,7 +370,7 @@ int main(void)
             char key[32]; int val;
             if (sscanf(tok, "%31[^=]=%d", key, &val) != 2) continue;
 #define K(n) if (!strcmp(key, #n)) P.n = val;
-            K(seed) K(mode) K(conns) K(apps) K(rounds) K(reent) K(raw) K(stop) K(close)
+            K(seed) K(mode) K(conns) K(apps) K(rounds) K(reent) K(raw) K(stop) K(close) K(big)
         }
         if (P.conns < 1) P.conns = 1; if (P.conns > 4) P.conns = 4;
         if (P.apps < 1) P.apps = 1; if (P.apps > 4) P.apps = 4;
